@@ -38,7 +38,7 @@ IsDeny(a) == a \in {2, 3}          \* egress drop / reject
 IsReject(a) == a = 3
 
 \* ---- classification of an incoming record r =
-\*   [key, sp, dp, sns, dns, ftype, egress, ingress, start, end, vals, reason]
+\*   [key, sp, dp, sns, dns, ftype, egress, ingress, prio, start, end, vals, reason]
 NeedsCorrelation(r) == r.ftype = InterNode /\ ~IsDeny(r.egress) /\ ~IsReject(r.ingress)
 FromSrc(sp, dp) == sp # "" /\ dp = ""
 FromDst(sp, dp) == dp # "" /\ sp = ""
@@ -61,7 +61,7 @@ Tput(tot, dt) == IF dt > 0 THEN (8 * tot) \div dt ELSE 0
 \* first record of a flow: the record itself becomes the aggregate; per-node fields are seeded
 NewFlow(r, fs, fd) ==
   [ sp |-> r.sp, dp |-> r.dp, sns |-> r.sns, dns |-> r.dns,
-    ftype |-> r.ftype, egress |-> r.egress, ingress |-> r.ingress,
+    ftype |-> r.ftype, egress |-> r.egress, ingress |-> r.ingress, prio |-> r.prio,
     start |-> r.start, end |-> r.end,
     endS |-> IF fs THEN r.end ELSE 0, endD |-> IF fd THEN r.end ELSE 0,
     com |-> r.vals,
@@ -101,9 +101,12 @@ Aggregate(f, r, fs, fd, latest) ==
                      !.reason = IF @ = 3 THEN 3 ELSE r.reason]
 
 \* correlation: every non-empty correlate field of the incoming record overwrites
+\* (strings: non-empty; numbers, signed ones included: non-zero)
 Correlate(f, r) ==
   [f EXCEPT !.sp = IF r.sp # "" THEN r.sp ELSE @, !.dp = IF r.dp # "" THEN r.dp ELSE @,
-            !.sns = IF r.sns # "" THEN r.sns ELSE @, !.dns = IF r.dns # "" THEN r.dns ELSE @]
+            !.sns = IF r.sns # "" THEN r.sns ELSE @, !.dns = IF r.dns # "" THEN r.dns ELSE @,
+            !.egress = IF r.egress # 0 THEN r.egress ELSE @, !.ingress = IF r.ingress # 0 THEN r.ingress ELSE @,
+            !.prio = IF r.prio # 0 THEN r.prio ELSE @]
 
 ---------------------------------------------------------------------------
 (* History for the declarative statement of C05.  Per key:                 *)
